@@ -218,6 +218,13 @@ def apply(ds, ev, inplace, variant):
         o = fmap(arg["o"])
         if arg["form"] == "factors":
             r = ds.fourier_resample(factors=2.0, **kw)
+        elif arg["form"] == "factors-tuple":
+            ks = sorted(o)
+            f = arg["fac"][0] / arg["fac"][1]
+            if len(ks) == 1 and variant % 2:
+                r = ds.fourier_resample(factors=f, axes=ks[0] - 1, **kw)
+            else:
+                r = ds.fourier_resample(factors=tuple(f for _ in ks), axes=tuple(j - 1 for j in ks), **kw)
         else:
             ks = sorted(o)
             r = ds.fourier_resample(out_shape=tuple(int(o[j]) for j in ks), axes=tuple(j - 1 for j in ks), **kw)
